@@ -1,0 +1,15 @@
+//go:build verif
+
+// Contracts for package xpush (comment-only; read by /verif/govc).
+
+package xpush
+
+//@ struct pipe
+//@   immutable: p s sendQ closeQ
+//@   guarded_by s.Mutex: closed
+//@
+//@ struct socket
+//@   lock Mutex level 20
+//@   guarded_by Mutex: closed sendQ noPeerQ sendExpire sendQLen bestEffort failNoPeers readyQ pipes
+//@   immutable: closeQ cv
+//@
